@@ -1,4 +1,67 @@
+/-
+C13 — the generated fiddler does what apply_diff does.
+
+Model (`Model/Diff.lean`): `emit` turns a diff into the statements `fiddler_from_diff` writes
+for one node (`del cfg.k`, `fdl.remove_tag`, `fdl.update_callable`, `cfg.k = v`,
+`fdl.add_tag`) in the order `_cst_for_changes` writes them; `execAll` runs them with the
+validation the real statements perform.
+The correspondence run parses the *emitted Python source* back into these statements and runs
+the model on them, so variable naming modes, `new_shared_values` handling and the presence or
+absence of `old` are exercised on the real generator; nested targets are outside the model.
+-/
+import FiddleModel.Lemmas.DiffMain
 import FiddleModel.Generated.Tables
+
 namespace Fiddle
-theorem C13_placeholder : True := trivial
+open Fiddle.Diff
+
+/-- For EVERY list of changes: the emitted fiddler is `apply_diff` with three coarser phases —
+    (DeleteValue, RemoveTag), the callable, (ModifyValue, SetValue, AddTag), each in diff order
+    (`regroup`, the order `_cst_for_changes` emits). Whenever that application succeeds the
+    fiddler succeeds with exactly the same configuration. -/
+theorem C13_fiddler_is_regrouped_apply (sg : Sigs) (chs : List Change) (c r : Flat)
+    (hok : ArgsOk sg c) (h : applyAll sg c (regroup chs) = .ok r) :
+    execAll sg c (emit chs) = .ok r :=
+  fiddler_eq_regrouped_apply sg chs c r hok h
+
+/-- Statement by statement: what is emitted for a change does what the change does. -/
+theorem C13_statement_equals_change (sg : Sigs) (c r : Flat) (ch : Change) (hok : ArgsOk sg c)
+    (h : apply1 sg c ch = .ok r) : exec1 sg c (emit1 ch) = .ok r :=
+  (exec1_emit1 sg c r ch hok h).1
+
+/-- For the diffs `build_diff` produces (in the model's change order) the three coarse phases
+    and the five phases of `_apply_changes` are the same sequence of operations, so the
+    fiddler produces exactly what `apply_diff` produces. That the two groupings agree for a
+    diff whose changes come in ANOTHER order is not proved (it needs the independence of
+    changes with distinct targets); the correspondence run covers it on the real generator:
+    `_partial`. -/
+theorem C13_fiddler_equals_apply_diff_partial (sg : Sigs) (old new c r : Flat) (hok : ArgsOk sg c)
+    (h : applyPhases sg Tables.applyOrder (flatDiff old new) c = .ok r) :
+    execAll sg c (emit (flatDiff old new)) = .ok r := by
+  have hord : Tables.applyOrder = ["DeleteValue", "RemoveTag", "ModifyValue", "SetValue", "AddTag"] := by
+    decide
+  rw [hord, applyPhases_flatDiff] at h
+  apply fiddler_eq_regrouped_apply sg _ c r hok
+  rw [regroup_flatDiff]; exact h
+
+/-- With C10: the fiddler generated from `build_diff(old, new)` turns `old` into `new`. -/
+theorem C13_fiddler_of_build_diff (sg : Sigs) (old new : Flat) (ho : old.Valid sg)
+    (hn : new.Valid sg) :
+    ∃ r, execAll sg old (emit (flatDiff old new)) = .ok r ∧
+      r.fn = new.fn ∧ (∀ k, r.args.get? k = new.args.get? k) ∧
+      (∀ n t, t ∈ r.tagsOf n ↔ t ∈ new.tagsOf n) := by
+  have hord : Tables.applyOrder = ["DeleteValue", "RemoveTag", "ModifyValue", "SetValue", "AddTag"] := by
+    decide
+  obtain ⟨r, hr, h1, h2, h3⟩ := flat_roundtrip sg old new ho hn
+  rw [← hord] at hr
+  exact ⟨r, C13_fiddler_equals_apply_diff_partial sg old new old r ho.argsOk hr, h1, h2, h3⟩
+
+private def sgEx : Sigs := fun f => if f = "f" then ["a", "c"] else if f = "g" then ["b", "c"] else []
+private def oldEx : Flat := { fn := "f", args := [(.name "a", .v 1), (.name "c", .v 3)], tags := [(.name "a", [7])] }
+private def newEx : Flat := { fn := "g", args := [(.name "c", .v 4), (.name "b", .v 2)], tags := [(.name "b", [8])] }
+
+example : emit (flatDiff oldEx newEx) =
+    [.delAttr "a", .removeTag "a" 7, .updateCallable "g", .assign "c" (.v 4), .assign "b" (.v 2),
+     .addTag "b" 8] := by decide
+
 end Fiddle
